@@ -11,10 +11,11 @@ import itertools
 # -- representation ------------------------------------------------------------------------
 
 def trim(c):
-    c = list(c)
-    while c and c[-1] == 0:
-        c.pop()
-    return tuple(c)
+    c = tuple(c)
+    n = len(c)
+    while n and c[n - 1] == 0:
+        n -= 1
+    return c if n == len(c) else c[:n]
 
 
 def from_int(n, p):
@@ -55,18 +56,23 @@ def polys_over(alphabet, maxdeg):
 # -- ring operations -----------------------------------------------------------------------
 
 def add(a, b, p):
-    n = max(len(a), len(b))
-    a = tuple(a) + (0,) * (n - len(a))
-    b = tuple(b) + (0,) * (n - len(b))
-    return trim((x + y) % p for x, y in zip(a, b))
+    if len(a) < len(b):
+        a, b = b, a
+    c = list(a)
+    for i, y in enumerate(b):
+        c[i] = (c[i] + y) % p
+    return trim(c)
 
 
 def neg(a, p):
-    return trim((-x) % p for x in a)
+    return tuple([(-x) % p for x in a])
 
 
 def sub(a, b, p):
-    return add(a, neg(b, p), p)
+    c = list(a) + [0] * (len(b) - len(a))
+    for i, y in enumerate(b):
+        c[i] = (c[i] - y) % p
+    return trim(c)
 
 
 def mul(a, b, p):
@@ -75,8 +81,8 @@ def mul(a, b, p):
     c = [0] * (len(a) + len(b) - 1)
     for i, x in enumerate(a):
         for j, y in enumerate(b):
-            c[i + j] = (c[i + j] + x * y) % p
-    return trim(c)
+            c[i + j] += x * y
+    return trim([x % p for x in c])
 
 
 def scal(k, a, p):
@@ -106,8 +112,7 @@ def pow_(a, n, p):
     return r
 
 
-def divmod_(a, b, p):
-    """Schoolbook long division: (q, r) with a = q b + r, deg r < deg b."""
+def _longdiv(a, b, p):
     if not b:
         raise ZeroDivisionError
     r = list(a)
@@ -121,8 +126,15 @@ def divmod_(a, b, p):
     return trim(q), trim(r)
 
 
+def divmod_(a, b, p):
+    """Schoolbook long division: (q, r) with a = q b + r, deg r < deg b (law asserted on every call)."""
+    q, r = _longdiv(a, b, p)
+    assert len(r) < len(b) and add(mul(q, b, p), r, p) == tuple(a)      # the division law itself
+    return q, r
+
+
 def mod(a, b, p):
-    return divmod_(a, b, p)[1]
+    return _longdiv(a, b, p)[1]
 
 
 def divides(d, a, p):
@@ -184,6 +196,9 @@ def evaluate(a, x, p):
 
 
 def deriv(a, m, p):
+    """m-th formal derivative: coefficient of x^(i-m) is i(i-1)...(i-m+1) a_i."""
+    if m >= p:
+        return ()       # a product of m >= p consecutive integers is divisible by p
     out = []
     for i in range(m, len(a)):
         f = 1
